@@ -4,7 +4,7 @@
     finished task and no duplicate records are the monitor clauses (4,_) and (2,2) of
     [EngineMon], evaluated on crash / prefix-restore journals. *)
 From Coq Require Import List ZArith Bool Arith.
-From FF Require Import Sx TaskTree TaskTreeFacts StoreModel StoreCheck TaskRun TaskRunFacts.
+From FF Require Import Sx TaskTree TaskTreeFacts StoreModel StoreCheck TaskRun TaskRunFacts Engine EngineFacts EngineSettle EngineRefute.
 Import ListNotations.
 
 (** a task persisted as running / success / skipped / failed / canceled / blocked is not executable *)
@@ -27,3 +27,64 @@ Print Assumptions C04_pushed_status.
 Theorem C04_no_main_action_without_running_write : forall p q, acc_step p (TS 1) = Some q -> p = NeedRunStart.
 Proof. exact start_run_needs. Qed.
 Print Assumptions C04_no_main_action_without_running_write.
+
+(** --- engine level (Engine, see C01.v for the scope; [Crash] is a label of the system: the tree, the
+    registered runs, the queued completion events and the deliveries under way are lost at any point,
+    the restart rebuilds from the store).  Across crashes: a main action that had started is not started
+    again in the same attempt and a finished task never leaves 'success' (every history without a stale
+    accepted delivery); the instance is settled at every quiescent point, a task left 'running' by the
+    crash being what the watchdog settles (histories with [cmdquiet] and [nonoop]). --- *)
+
+Theorem C04_engine_no_second_start_after_restart : forall tasks deps cq nn ls1 s1 ls2 s2 t s',
+  run tasks deps true cq nn boot ls1 = Some s1 -> started s1 t = true ->
+  run tasks deps true cq nn s1 (Crash :: ls2) = Some s2 -> ~ In (Rearm t) ls2 ->
+  step tasks deps true cq nn s2 (MainStart t) = Some s' -> False.
+Proof.
+  intros tasks deps cq nn ls1 s1 ls2 s2 t s' Hr1 Hst Hr2 Hnr Hs.
+  pose proof (inv_reach tasks deps cq nn ls1 boot s1 (inv_boot deps) Hr1) as HI1.
+  pose proof (inv_reach tasks deps cq nn (Crash :: ls2) s1 s2 HI1 Hr2) as HI2.
+  destruct (main_start_once tasks deps cq nn s2 t s' HI2 Hs) as (Hf & _).
+  assert (Hk : forall ls a b, run tasks deps true cq nn a ls = Some b -> started a t = true -> ~ In (Rearm t) ls -> started b t = true).
+  { induction ls as [|l ls IH]; cbn; intros a b Hrun Ha Hni.
+    - inversion Hrun; subst. exact Ha.
+    - destruct (step tasks deps true cq nn a l) as [a'|] eqn:E; [|discriminate].
+      apply (IH a' b Hrun); [|intros Hin; apply Hni; right; exact Hin].
+      apply (started_kept tasks deps cq nn a l a' t E Ha). intros ->. apply Hni. left. reflexivity. }
+  assert (Hni : ~ In (Rearm t) (Crash :: ls2)) by (intros [H|H]; [discriminate|contradiction]).
+  rewrite (Hk (Crash :: ls2) s1 s2 Hr2 Hst Hni) in Hf. discriminate.
+Qed.
+Print Assumptions C04_engine_no_second_start_after_restart.
+
+Theorem C04_engine_settles_across_crashes : forall tasks deps validate (rank : Z -> nat),
+  NoDup tasks ->
+  (forall t d, In d (deps t) -> (rank d < rank t)%nat) ->
+  (forall t d, In t tasks -> In d (deps t) -> In d tasks) ->
+  forall ls s, run tasks deps validate true true boot ls = Some s -> Quiescent tasks s ->
+  ins s <> IRunning /\
+  (ins s = ISuccess <-> forall t, In t tasks -> store s t = SSuccess) /\
+  (ins s = IFailed -> exists t, In t tasks /\ store s t = SFailed).
+Proof.
+  intros tasks deps validate rank Hnd Hrank Hclosed ls s Hr Hq.
+  apply (settled tasks deps s); [|exact Hq].
+  exact (invq_reach tasks deps validate rank Hnd Hrank Hclosed ls boot s (invq_boot tasks deps) Hr).
+Qed.
+Print Assumptions C04_engine_settles_across_crashes.
+
+(** a task the crash left recorded running with no run is settled by the watchdog, nothing else is needed *)
+Theorem C04_engine_orphan_settled_by_watchdog : forall tasks deps validate (rank : Z -> nat),
+  NoDup tasks ->
+  (forall t d, In d (deps t) -> (rank d < rank t)%nat) ->
+  (forall t d, In t tasks -> In d (deps t) -> In d tasks) ->
+  forall ls s t, run tasks deps validate true true boot ls = Some s -> store s t = SRunning -> runs s t = RNone ->
+  exists s', step tasks deps validate true true s (WdFail t) = Some s' /\ ins s' = IFailed /\ store s' t = SFailed.
+Proof.
+  intros tasks deps validate rank Hnd Hrank Hclosed ls s t Hr Hst Hrn.
+  apply (orphan_settled_by_watchdog tasks deps validate s t); try assumption.
+  exact (invq_reach tasks deps validate rank Hnd Hrank Hclosed ls boot s (invq_boot tasks deps) Hr).
+Qed.
+Print Assumptions C04_engine_orphan_settled_by_watchdog.
+
+(** the hypotheses are met by a history through a crash in the middle of a main action *)
+Example C04_engine_crash_history :
+  exists s, run [1]%Z nodeps true true true boot w_crash = Some s /\ Quiescent [1]%Z s /\ ins s = IFailed /\ started s 1%Z = true.
+Proof. exact settle_after_crash_met. Qed.
